@@ -91,11 +91,20 @@ def vacuity(eng):
         problems.append('requires is unsatisfiable')
     normal = [(s, o) for s, o in eng.paths if o[0] == 'return']
     feas = 0
+    unknown = 0
+    t0 = time.time()
     for s, o in normal:
-        if check_sat(s.pc, 5000) == 'sat':
+        r = check_sat(s.pc, 2000)
+        if r == 'sat':
             feas += 1
             break
-    if normal and not feas:
+        if r == 'unknown':
+            unknown += 1
+            if time.time() - t0 > 6:
+                break
+    # quantified ghost axioms can make z3 answer `unknown` on satisfiable path conditions: only a
+    # path set that is *refuted* throughout is reported as vacuous
+    if normal and not feas and not unknown:
         problems.append('no feasible normal exit path (canary not refutable)')
     if not normal and not eng.spec.hints.get('only_raises'):
         problems.append('no normal exit path at all')
@@ -274,6 +283,8 @@ def gen_item(args):
                                    callee_contracts=sorted(eng.called), fragment=bool(it.fragment), note=it.note)
             if not eng.order:
                 out['undecided'].append(('%s/%s' % (prop, it.name), 'vacuity: zero obligations'))
+            if eng.stale_env:
+                out['undecided'].append(('%s/%s' % (prop, it.name), 'stale contract: env entries never read by the code: %s' % eng.stale_env))
             for nm in eng.order:
                 ob = eng.obligs[nm]
                 if ob is None:
@@ -312,7 +323,7 @@ def gen_item(args):
                 out['undecided'].append((rec.full, 'vacuity: lemma hypotheses are contradictory'))
             out['obs'].append(rec)
     except Unsupported as e:
-        out['undecided'].append(('%s/%s' % (prop, it.name), 'unsupported: %s' % e))
+        out['unsupported'] = ('%s/%s' % (prop, it.name), 'unsupported: %s' % e)
     except CheckerDefect as e:
         out['error'] = 'CHECKER-DEFECT %s' % e
     return out
@@ -342,6 +353,23 @@ def check_property(prop, tier='quick', seed=0, only=None):
         if out['error']:
             raise CheckerDefect(out['error'])
         res.undecided.extend(out['undecided'])
+        if out.get('unsupported'):
+            # the function left the verifiable subset (typically after a code change): undecided, unless
+            # the contract's replay search finds an input on which the real code breaks the contract
+            full, why = out['unsupported']
+            it = items[out['index']]
+            rep = None
+            replay = getattr(it, 'replay', None)
+            if replay is not None:
+                try:
+                    rep = replay(None, 'unsupported')
+                except Exception:
+                    rep = None
+            if rep and rep.get('confirmed'):
+                res.violations.append(dict(kind='obligation', obligation=full + '/contract-no-longer-checkable', line=None, model=None,
+                                           replay=rep, solver=[dict(reason=why)]))
+            else:
+                res.undecided.append((full, why))
         if out['function']:
             res.functions.append(out['function'])
         if out['crosscheck'] is not None:
